@@ -133,11 +133,17 @@ func runOvl(line, doc, sa, sb, hexPath string) core.Outcome {
 	if held {
 		o.Tags = append(o.Tags, "ovl:held")
 		early := ""
+		// a request the mux answers itself (unclean path: 301) never gets as far as the lock
+		reached := func(r response) bool { return r.status != 301 && !(r.status == 404 && errClass(r.status, r.body) == "notfound") }
 		select {
 		case <-bDone:
-			early = fmt.Sprintf("%s %s", methodName[b.m], b.path)
+			if reached(xb) {
+				early = fmt.Sprintf("%s %s", methodName[b.m], b.path)
+			}
 		case <-gDone:
-			early = "GET " + rp
+			if reached(xg) {
+				early = "GET " + rp
+			}
 		case <-time.After(25 * time.Millisecond):
 		}
 		if early != "" {
